@@ -34,10 +34,17 @@ def digest(obj) -> bytes:
     return hashlib.blake2b(data, digest_size=8).digest()
 
 
+def _brief(key):
+    if isinstance(key, bytes):
+        return key.hex()
+    r = repr(key)
+    return r if len(r) <= 300 else r[:300] + '...'
+
+
 class Acc:
     """Accumulator; one per work item on a worker, merged in the parent."""
     MAX_PER_SIG = 3
-    MAX_SAMPLES = 6
+    MAX_SAMPLES = 12
 
     def __init__(self):
         self.viol: dict[str, list] = {}
@@ -48,6 +55,8 @@ class Acc:
         self.outcomes: set = set()
         self.samples: list = []
         self.notes: dict = {}
+        self._auto = 0
+        self._auto_s = 0
 
     # -- recording -------------------------------------------------------
     def violation(self, signature: str, what: str, record: dict):
@@ -61,9 +70,16 @@ class Acc:
 
     def nontriv(self, key):
         self.nontrivial.add(digest(key))
+        if self._auto < 2:
+            # evidence shows what the explored cases look like: the first keys of each work item are written out
+            self._auto += 1
+            self.sample({'nontrivial_case': _brief(key)})
 
     def state(self, key):
         self.states.add(digest(key))
+        if self._auto_s < 1:
+            self._auto_s += 1
+            self.sample({'state': _brief(key)})
 
     def outcome(self, key):
         if len(self.outcomes) < 100000:
@@ -271,6 +287,7 @@ def write_evidence(prop: str, tier: str, seed: int, level: str, acc: Acc,
         'traces_validated_against_impl': int(acc.counts.get('traces', 0)),
         'exhaustive': bool(exhaustive),
         'distinct_outcomes': len(acc.outcomes),
+        'outcomes_seen': sorted(_brief(o) for o in acc.outcomes)[:80],
         'counts': {k: int(v) for k, v in sorted(acc.counts.items())},
     }
     cov.update(extra)
